@@ -1147,7 +1147,9 @@ def skeleton_translation(res, tier, seed, workdir, stats, pid="C05", must=()):
     thms = []
     pk = {"fill": "fill_eq", "set_to": "setTo_eq", "len": "len_eq", "is_empty": "isEmpty_eq", "inner": "inner_eq", "as_slice": "asSlice_eq"}
     for f in translated:
-        ty, fn = f.split("::")
+        if "::" not in f:
+            continue        # shape-only items (`impl_write!`, ..) carry no theorem
+        ty, fn = f.split("::", 1)
         if ty == "HashPacket":
             if fn in pk:
                 thms.append("HH.Gen.Skel.Packet." + pk[fn])
